@@ -161,6 +161,11 @@ REDEF = {'none': {}, 'mu': {'mu': 'mu2'}, 'a': {'a': 'a2'}, 'Nxx': {'Nxx': 'Nxx2
 
 
 def build(cfg, values=None):
+    if cfg.get('shell'):
+        # complete shells: the laminate matrix handed to the kernels and the geometric stiffness do not depend on how many times
+        # the linear matrices were evaluated (harness shared with C16)
+        from . import c16
+        return c16.build(dict(cfg, variant='split'), values)
     model, m, n = cfg['model'], cfg['m'], cfg['n']
     first, redef, last = cfg['first'], cfg['redef'], cfg['last']
     w = World(values, cfg.get('seed', 0))
@@ -227,6 +232,10 @@ def configs(tier, seed):
                     out.append({'model': model, 'm': 2, 'n': 1, 'first': first, 'redef': redef, 'last': last, 'group': 'redefinition-%s:%s' % (redef, model)})
     for c in out:
         c['variant'] = '%s;%s;%s' % (c['first'], c['redef'], c['last'])
+    for model in ('clpt_donnell_bc1', 'fsdt_donnell_bc1', 'fsdt_donnell_bc4'):
+        for cone in (True, False):
+            out.append({'shell': True, 'model': model, 'mn': (1, 1, 1), 's': 1, 'cone': cone, 'm': 1, 'n': 1, 'variant': 'shell-repeated-evaluation',
+                        'group': 'shell-repeated-evaluation:%s' % model, 'first': '-', 'redef': 'none', 'last': '_calc_linear_matrices', 'timeout_ms': 180000})
     out[1]['canary'] = True
     return out
 
@@ -239,10 +248,11 @@ def main():
         'the final definition asked for that quantity first; exceptions on the fresh twin and modified caller arrays are violations.'))
     run.encoded('compmech/panel/_panel.py', 'Panel.* (public evaluation methods)')
     cf = configs(run.tier, run.seed)
-    run.bounds = {'history_length': '<= 2 calls + 1 redefinition', 'alphabet': sorted({c['last'] for c in cf}), 'redefinitions': sorted(REDEF), 'models': sorted({c['model'] for c in cf}),
+    run.bounds = {'history_length': '<= 2 calls + 1 redefinition', 'alphabet': sorted({c['last'] for c in cf}), 'redefinitions': sorted(REDEF), 'models': sorted({str(c['model']) for c in cf}),
                   'configurations': len(cf)}
     run.assume('series orders m=2, n=1', 'eigen-solvers stubbed: the matrices handed to the solver are the observable', 'thread-count independence: only what is arithmetic (chunk partitions, C11)')
-    run.outside = ['OpenMP races', 'complete shells (ConeCyl) and their cached matrices', 'plotting', 'histories longer than the bound']
+    run.encoded('compmech/conecyl/conecyl.py', 'ConeCyl._calc_linear_matrices (repeated evaluation)')
+    run.outside = ['OpenMP races', 'ConeCyl histories beyond repeated evaluation of the linear matrices', 'plotting', 'histories longer than the bound']
     res = pmap(kprop.job, [(__name__, c) for c in cf])
     for r in res:
         if 'cfg' in r:
